@@ -194,6 +194,42 @@ def search(seed, tier):
     return found
 
 
+def runtime_checks():
+    """exact observations on the real code, every run: what holds over the reals for every network and every parameter must
+    survive floating point at the constrained points themselves - huge raw network outputs, far-away initial times"""
+    import torch
+    from neurodiffeq.conditions import IVP, DirichletBVP, DoubleEndedBVP1D
+    from neurodiffeq.networks import FCNN
+    bad = []
+    torch.manual_seed(11)
+
+    class Scaled(torch.nn.Module):
+        def __init__(self, base, k):
+            super().__init__()
+            self.base, self.k = base, k
+
+        def forward(self, x):
+            return self.base(x) * self.k
+    n = 4
+    full = lambda v: torch.full((n, 1), float(v), requires_grad=True)
+    for scale in (1.0, 1e9, 1e15):
+        net = Scaled(FCNN(1, 1, hidden_units=(6,)), scale)
+        cases = [('IVP value', IVP(0.3, 1.7), 0.3, 1.7), ('IVP value (derivative mode)', IVP(0.3, 1.7, -0.4), 0.3, 1.7),
+                 ('IVP far-away t_0', IVP(800.0, 1.7), 800.0, 1.7), ('IVP far-away negative t_0', IVP(-750.0, -2.5, 0.5), -750.0, -2.5),
+                 ('DirichletBVP left', DirichletBVP(0.2, 1.1, 1.9, -0.6), 0.2, 1.1), ('DirichletBVP right', DirichletBVP(0.2, 1.1, 1.9, -0.6), 1.9, -0.6),
+                 ('DoubleEndedBVP1D DD left', DoubleEndedBVP1D(0.2, 1.9, x_min_val=1.1, x_max_val=-0.6), 0.2, 1.1),
+                 ('DoubleEndedBVP1D DD right', DoubleEndedBVP1D(0.2, 1.9, x_min_val=1.1, x_max_val=-0.6), 1.9, -0.6)]
+        for name, cond, pt, want in cases:
+            try:
+                got = cond.enforce(net, full(pt)).detach().reshape(-1)
+                if not bool(torch.isfinite(got).all()) or float((got - want).abs().max()) > 1e-9 * (1 + abs(want)):
+                    bad.append(dict(case=name, network_output_scale=scale, point=pt, got=got.tolist(), want=want,
+                                    violated='value at the constrained point differs from the prescribed value'))
+            except Exception as e:
+                bad.append(dict(case=name, network_output_scale=scale, error=f'{type(e).__name__}: {e}'))
+    return bad
+
+
 def check(tier, seed):
     from ..calcprop import check_calc
     import sys
